@@ -15,6 +15,7 @@
 #include <oneapi/tbb/task_scheduler_observer.h>
 #include <oneapi/tbb/parallel_for.h>
 #include <oneapi/tbb/task.h>
+#include <oneapi/tbb/flow_graph.h>
 #include "vfh.h"
 using namespace vfh;
 static int maxconc = 2, reserved = 1; static bool is_ext[16]; static int inflight[8], live, live_ext, live_workers, maxlive, enq_pending;
@@ -69,6 +70,23 @@ static void scenario() {
                 in.wait(); in_iso = 0; });
             outer.wait(); }); vf_window(0);
         vf_outcome("x1 on T%d outer_done=%d", x1_thread, outer_done); }
+    else if (streq(k, "isolate_critical")) {
+        // Isolation also holds for CRITICAL tasks (body of a flow-graph node with a priority, submitted through the critical task stream):
+        // the main thread waits inside isolate with nothing to do (its inner task is held by the worker) while another application thread
+        // puts a message to the priority node from outside the isolation scope.
+        tbb::global_control gc(tbb::global_control::max_allowed_parallelism, 2); tbb::task_arena a(2); int warm = 0;
+        a.execute([&] { tbb::task_group tg; for (int i = 0; i < 2; i++) tg.run([&] { warm++; for (int j = 0; j < 10; j++) vf_yield(); }); tg.wait(); });
+        static int in_iso, iso_thread, node_done, x_thread, put_done; in_iso = node_done = put_done = 0; iso_thread = x_thread = -1;
+        a.execute([&] { tbb::flow::graph g;
+            tbb::flow::function_node<int, int> n(g, tbb::flow::unlimited, [&](int v) { if (in_iso && vf_self() == iso_thread) vf_fail("a thread waiting inside isolate executed the body of a priority flow-graph node (a critical task) that was submitted outside the isolation scope"); node_done = 1; return v; }, tbb::flow::node_priority_t(1));
+            auto ids = gated(1, [&](int) { is_ext[vf_self()] = true; (void)tbb::this_task_arena::max_concurrency(); }, [&](int) { for (int j = 0; j < 3000 && x_thread < 0; j++) vf_yield(); n.try_put(7); put_done = 1; });
+            vf_window(1); vf_gate_open();
+            tbb::this_task_arena::isolate([&] { iso_thread = vf_self(); in_iso = 1; tbb::task_group in;
+                in.run([&] { x_thread = vf_self(); for (int j = 0; j < 1500 && !(put_done && x_thread != iso_thread); j++) vf_yield(); for (int j = 0; j < 80; j++) vf_yield(); });   // X1: whoever takes it holds it until the message was put
+                in.run([&] { for (int j = 0; j < 600 && x_thread < 0; j++) vf_yield(); });                                                                               // X2: the scope owner pops it first
+                in.wait(); in_iso = 0; });
+            join_all(ids); g.wait_for_all(); vf_window(0); if (!node_done) vf_fail("the node body never ran"); });
+        vf_outcome("x1 on T%d", x_thread); }
     else if (streq(k, "priority")) {
         // One worker (max_allowed_parallelism 2), a normal-priority arena in which the worker holds stolen loop chunks in its own pool, and a
         // high-priority arena that gets demand (enqueue) from a second application thread: the higher-priority demand must be satisfied
